@@ -34,5 +34,26 @@ func allProps() []PropSpec {
 			},
 			Assumptions: []string{"time.Parse/ParseInLocation is an opaque stub that succeeds or fails nondeterministically", "inputs longer than the stated bounds are outside the claim"},
 		},
+		{
+			ID: "C05",
+			Harnesses: []HarnessSpec{
+				{Func: "ZZ_C05_H1", Pkg: "pkg/protocol", Quick: map[string]int{"K": 3, "V": 3}, Thorough: map[string]int{"K": 4, "V": 5}, Covers: []string{"reached-assert", "line-emitted"}},
+				{Func: "ZZ_C05_REQ", Pkg: "pkg/protocol", Quick: map[string]int{"K": 2, "V": 3}, Thorough: map[string]int{"K": 3, "V": 4}, Covers: []string{"reached-assert"}},
+				{Func: "ZZ_C05_RESP", Pkg: "pkg/protocol", Quick: map[string]int{"K": 2, "V": 3}, Thorough: map[string]int{"K": 3, "V": 4}, Covers: []string{"reached-assert"}},
+				{Func: "ZZ_C05_TRAILER", Pkg: "pkg/protocol", Quick: map[string]int{"K": 2, "V": 3}, Thorough: map[string]int{"K": 3, "V": 4}, Covers: []string{"reached-assert", "accepted"}},
+			},
+			Assumptions: []string{"entry points are the hand-listed setters in harness/pkg/protocol/c05.go (12 request, 12 response, trailer Set)", "request method and request-target are not header-setting APIs and are outside the property's list", "values/keys longer than the bounds are outside the claim"},
+		},
+		{
+			ID: "C17",
+			Harnesses: []HarnessSpec{
+				{Func: "ZZ_C17_H1", Pkg: "pkg/protocol", Quick: map[string]int{"N": 4}, Thorough: map[string]int{"N": 6}, Covers: []string{"reached-assert", "escaped-something"}},
+				{Func: "ZZ_C17_H1P", Pkg: "pkg/protocol", Quick: map[string]int{"N": 5}, Thorough: map[string]int{"N": 8}, Covers: []string{"reached-assert"}},
+				{Func: "ZZ_C17_H1D", Pkg: "pkg/protocol", Quick: map[string]int{"N": 5}, Thorough: map[string]int{"N": 7}, Covers: []string{"reached-assert", "has-escape"}},
+				{Func: "ZZ_C17_H2", Pkg: "pkg/protocol", Quick: map[string]int{"M": 1}, Thorough: map[string]int{"M": 2}, Covers: []string{"reached-assert", "two-entries"}},
+				{Func: "ZZ_C17_H4", Pkg: "pkg/protocol", Quick: map[string]int{"M": 1}, Thorough: map[string]int{"M": 2}, Covers: []string{"reached-assert"}},
+			},
+			Assumptions: []string{"cookie expires (time formatting) is outside the claim; max-age ranges over 5 representative values", "agreement with net/url is checked against a reference implementing net/url.QueryUnescape's acceptance rule, not against net/url.ParseQuery on whole strings", "URI FullURI/Parse fixed point is checked in ZZ_C17_H3 when present"},
+		},
 	}
 }
